@@ -30,7 +30,11 @@ UNICODE_LINES = ["Mark: æøå", "   ", "\tMark: tab", "Mark: a # c", "# only co
                  "End block", "Call macro: x", "Macro:", "Wait: -1s", "Wait: 1 parsec", "5 5 Mark", "1e3 Mark: a",
                  "Simulate: T0 = x", "Simulate off: nosuch", "Base: CV", "Info: hello", "Warning: w", "Error: e",
                  "Pause: 0.5s", "Hold: 0.25s", "Stop", "Restart", "Run counter: -2", "Increment run counter",
-                 "Mark: ‮", "Notify", "0.5 Watch: T1 = 1", "    Mark: deep", "CmdA: 5", "CmdB", "Unknown thing: 1"]
+                 "Mark: ‮", "Notify", "Simulate: Run Time = abc", "Simulate: Connection Status = abc",
+                 "Simulate: Process Time = x", "Simulate: System State = abc", "Simulate: Run Id = 5",
+                 "Simulate: Method Status = x", "Simulate: Base = zz", "Simulate: Block = 7", "Simulate: Mark = 7",
+                 "Simulate: Clock = abc", "Simulate: Block Time = abc", "Simulate: Scope Time = q", "Simulate: Run Counter = z",
+                 "Simulate off: Run Time", "Watch: Run Time > 1", "Watch: Block > 1", "Watch: Connection Status = Connected", "0.5 Watch: T1 = 1", "    Mark: deep", "CmdA: 5", "CmdB", "Unknown thing: 1"]
 
 
 def gen_case(ctx: Check) -> dict:
@@ -77,13 +81,13 @@ def oracle(case) -> list[Failure]:
                     return fails
                 failed = {n["id"] for n in snap["nodes"] if n["failed"]}
                 new_failed = failed - prev_failed
-                if new_failed and snap["tags"].get("System State") not in ("Stopped", "Restarting"):
-                    if snap["tags"].get("Method Status") != "Error":
+                if new_failed and snap["raw_tags"].get("System State") not in ("Stopped", "Restarting"):
+                    if snap["raw_tags"].get("Method Status") != "Error":
                         fails.append(Failure("failed-instruction-without-error-status", case,
-                                             f"lines {sorted(new_failed)} failed, Method Status = {snap['tags'].get('Method Status')!r}"))
-                    elif snap["tags"].get("System State") != "Paused":
+                                             f"lines {sorted(new_failed)} failed, Method Status = {snap['raw_tags'].get('Method Status')!r}"))
+                    elif snap["raw_tags"].get("System State") != "Paused":
                         fails.append(Failure("failed-instruction-did-not-pause", case,
-                                             f"lines {sorted(new_failed)} failed, System State = {snap['tags'].get('System State')!r}"))
+                                             f"lines {sorted(new_failed)} failed, System State = {snap['raw_tags'].get('System State')!r}"))
                     ms = run.engine.method_manager.get_method_state()
                     # (after a live edit the method manager's view is detached: C01 finding, not judged here)
                     if run.engine.method_manager.program is run.engine.interpreter._program and \
@@ -93,7 +97,7 @@ def oracle(case) -> list[Failure]:
                 prev_failed = failed
         # responsiveness: Stop is accepted in an error state and stops; a corrected method is accepted
         snap = run.snapshot()
-        if snap["tags"].get("Method Status") == "Error" and snap["tags"].get("System State") == "Paused":
+        if snap["raw_tags"].get("Method Status") == "Error" and snap["raw_tags"].get("System State") == "Paused":
             if run.user("Stop") != "ok":
                 fails.append(Failure("stop-refused-in-error-state", case, "Stop raised in error state"))
             else:
@@ -102,9 +106,9 @@ def oracle(case) -> list[Failure]:
                     if s2["raised"]:
                         fails.append(Failure("tick-raised:" + s2["raised"].split(":")[0], case, s2["raised"][:300]))
                         return fails
-                if s2["tags"].get("System State") != "Stopped":
+                if s2["raw_tags"].get("System State") != "Stopped":
                     fails.append(Failure("stop-did-not-stop-in-error-state", case,
-                                         f"System State {s2['tags'].get('System State')!r} three ticks after Stop"))
+                                         f"System State {s2['raw_tags'].get('System State')!r} three ticks after Stop"))
             if run.edit("Mark: ok\n") != "ok":
                 fails.append(Failure("corrected-method-refused", case, "set_method of a valid method raised"))
         return fails
@@ -122,10 +126,11 @@ def run(ctx: Check) -> int:
                 "control commands, injected snippets (valid and invalid) on the real engine; non-trivial = run with "
                 "at least one failed instruction or rejected command.")
     m3_stream(ctx, "interp-m3-malformed", ctx.n(120, 2500), malformed=True)
-    cases = [gen_case(ctx) for _ in range(ctx.n(80, 1500))]
+    cases = [gen_case(ctx) for _ in range(ctx.n(300, 3000))]
     ctx.monitor(cases, oracle, impl_timeout=60, timeout_key="tick-hangs")
-    ctx.assumptions = ["raise table: interpreter.tick and command_manager.tick may raise anything; hwl.read_batch / "
-                       "write_batch may raise HardwareLayerException; every other call site of the tick does not raise"]
+    ctx.assumptions = ["raise table: interpreter.tick, command_manager.tick, update_calculated_tags and notify_tag_updates "
+                       "may raise anything; hwl.read_batch / write_batch may raise HardwareLayerException; every other "
+                       "call site of the tick does not raise"]
     return ctx.finish(search=lambda c: c.monitor([gen_case(c) for _ in range(c.n(300, 2000))], oracle,
                                                  impl_timeout=60, timeout_key="tick-hangs"))
 
